@@ -231,6 +231,34 @@ def native_checks():
                 if not ok and not (dname == "transact" and lo < 0 and col["type"] == "tinyint"):
                     fail("sql-integer-boundary", "%s: Integer rule %d...%d -> %r: %s" % (dname, lo, hi, stmt.split("\n")[1].strip() if "\n" in stmt else stmt, why),
                          dialect=dname, lo=lo, hi=hi)
+    # multi-item ranges: the overall limits decide (a first item ending at 0 must not hide the later ones)
+    for dname in DIALECTS + ("ansi",):
+        d = dialect_of(dname)
+        for rule, lo, hi in (("0, 10...70000", 0, 70000), ("0...9, -100000...-50", -100000, 9), ("-3...0, 5...40000", -3, 40000),
+                             ("10...70000, 0", 0, 70000), ("0, 300", 0, 300)):
+            n += 1
+            cid = interface.create_cid_from_string("d,format,delimited\nf,n,,,,Integer,\"%s\"\n" % rule)
+            stmt = sql.SqlFactory(cid, "t", d).create_table_statement()
+            col = parse_columns(stmt)[0]
+            if dname == "ansi":
+                continue
+            ok, why = holds(col["type"], col["p"] if col["type"] in ("decimal", "number") else None, dname, lo, hi)
+            if not ok and not (dname == "transact" and lo < 0 and col["type"] == "tinyint"):
+                fail("sql-integer-boundary", "%s: Integer rule %r -> %r: %s" % (dname, rule, stmt.split("\n")[1].strip(), why), dialect=dname, rule=rule)
+        for length, upper in (("0, 5...10", 10), ("5...10, 0", 10)):
+            n += 1
+            cid = interface.create_cid_from_string("d,format,delimited\nf,name,,X,\"%s\",Text\n" % length)
+            col = parse_columns(sql.SqlFactory(cid, "t", d).create_table_statement())[0]
+            if col["p"] != upper:
+                fail("sql-text-length", "%s: Text length %r -> size %r, expected %d" % (dname, length, col["p"], upper), dialect=dname, length=length)
+        # fixed-width CIDs: text columns keep their length
+        for t, rule in (("Text", ""), ("Choice", "\"abc,de\""), ("Pattern", "a*"), ("RegEx", "a.*")):
+            n += 1
+            cid = interface.create_cid_from_string("d,format,fixed\nf,name,,,12,%s,%s\n" % (t, rule))
+            stmt = sql.SqlFactory(cid, "t", d).create_table_statement()
+            col = parse_columns(stmt)[0]
+            if col["p"] != 12:
+                fail("sql-text-length", "%s: fixed-width %s field of width 12 -> %r" % (dname, t, stmt.split("\n")[1].strip()), dialect=dname, type=t)
     # decimal digits and text lengths
     for dname in ("ansi", "transact", "db2", "pl"):
         d = dialect_of(dname)
